@@ -621,6 +621,11 @@ func isRightInclude(b byte) (bool, error) {
 
 func doParseKeyAndOptions(field reflect.StructField, value string) (string, *fieldOptions, error) {
 	segments := parseSegments(value)
+	if len(segments) == 0 {
+		// 标签内容只有空白：与空标签一样处理
+		return "", nil, nil
+	}
+
 	key := strings.TrimSpace(segments[0])
 	options := segments[1:]
 
